@@ -116,6 +116,12 @@ class Trainer:
             # For now, refit (inefficient but correct)
             u = self.state.get_history("u", flat=True)[trim_idx]
             labels = self.clusterer.predict(u)
+            if len(np.unique(labels)) != self.clusterer.n_clusters_:
+                # A fitted cluster no longer attracts any trimmed particle, so the
+                # modes (built per occurring label) would no longer line up with
+                # the labels the clusterer hands out: refit on the current pool.
+                self.clusterer.fit(u, weights_trimmed)
+                labels = self.clusterer.predict(u)
             mode_stats = ModeStatistics.from_particles(
                 u, weights_trimmed, labels, dof_fallback=self.DOF_FALLBACK
             )
